@@ -326,7 +326,7 @@ func runC06(c *Ctx) {
 		{"numbers(30).map(e -> @C(e))", "l.size()", "numbers(40).map(i -> @C(i) + (if i < 14 then 0 else l[i % 30])).sum()", "l.sum()"},
 		{"numbers(20).accept(e -> @C(e) >= 0)", "l.sum()", "l.size()", "numbers(40).accept(i -> @C(i) >= 0 & (i < 14 | l.size() = 20)).size()"},
 		{"numbers(30).map(e -> @C(e))", "numbers(40).map(i -> @C(i) + (if i < 14 then 0 else l.order(e -> 0 - e).first())).sum()", "l.top(3)", "l.size()"},
-		{"numbers(25).iir(e -> @C(e), (e, p) -> @C(e) + p)", "numbers(48).map(i -> @C(i) + (if i < 14 then 0 else l.last())).sum()", "l.sum()", "l.map(e -> e + 1)"},
+		{"numbers(25).iir(e -> @C(e), (e, p) -> @C(e) + p)", "numbers(48).map(i -> @C(i) + (if i < 14 then 0 else l[24])).sum()", "l.sum()", "l.map(e -> e + 1)"},
 	}
 	nMulti := c.Pick(60, 600)
 	for i := -2 * len(specials); i < nMulti; i++ {
